@@ -600,7 +600,7 @@ func main() {
 		panic(err)
 	}
 	defer os.RemoveAll(root)
-	n := fl.Count(22, 200)
+	n := fl.Count(50, 700)
 	distinct := map[string]bool{}
 	emit := func(id int, name string, cfg sysCfg, fast bool, x *runner) {
 		it := make([]string, len(x.evs))
